@@ -43,6 +43,20 @@ class ScriptedStdin:
     def isatty(self):
         return False
 
+    # the other ways of reading a line: input() (uses readline of a non-console stdin),
+    # iteration, read()
+    def __iter__(self):
+        return self
+
+    def __next__(self):
+        return self.readline()
+
+    def read(self, *a):
+        return self.readline()
+
+    def fileno(self):
+        raise OSError("scripted stdin has no file descriptor")
+
 
 class ByteStream:
     """Recording replacement of os.urandom fed from a seeded generator."""
@@ -50,11 +64,26 @@ class ByteStream:
     def __init__(self, label):
         self.rng = env.Rng(label)
         self.calls = []
+        self.origins = []        # per call: file names (relative) of the middleware frames on the stack
 
     def __call__(self, n):
         b = self.rng.bytes(n)
         self.calls.append(b)
+        files = []
+        f = sys._getframe(1)
+        while f is not None:
+            fn = f.f_code.co_filename
+            if fn.startswith(env.MIDDLEWARE):
+                files.append(fn[len(env.MIDDLEWARE) + 1:])
+            f = f.f_back
+        self.origins.append(tuple(files))
         return b
+
+    def produced_under(self, include, exclude=()):
+        """concatenation of the bytes handed out while a frame of file ``include`` was on the
+        stack and none of ``exclude`` was"""
+        return b"".join(b for b, o in zip(self.calls, self.origins)
+                        if include in o and not any(x in o for x in exclude))
 
 
 class OsProxy:
@@ -78,13 +107,92 @@ class NoSleep:
         return 1700000000.0
 
 
+# ---------------------------------------------------------------------------
+# seams that hold whichever way the code under test spells the call
+# ---------------------------------------------------------------------------
+_REAL_URANDOM = os.urandom
+_REAL_STDOUT = sys.__stdout__
+_scan_cache = {}
+
+
+def _middleware_modules():
+    return [m for m in list(sys.modules.values())
+            if (getattr(m, "__file__", None) or "").startswith(env.MIDDLEWARE)]
+
+
+def names_where(tag, pred):
+    """(module, name) pairs of the loaded middleware modules whose value satisfies pred; cached
+    per number of loaded modules"""
+    key = (tag, len(sys.modules))
+    if key not in _scan_cache:
+        out = []
+        for m in _middleware_modules():
+            for n, v in list(vars(m).items()):
+                try:
+                    if pred(n, v):
+                        out.append((m, n))
+                except Exception:   # noqa
+                    pass
+        _scan_cache[key] = out
+    return _scan_cache[key]
+
+
+def seam_urandom(stream):
+    """os.urandom, the copy the random / secrets modules keep (SystemRandom, token_bytes,
+    randbelow...), and every name a middleware module bound to os.urandom (from os import urandom)"""
+    import random
+    t = [(os, "urandom", stream)]
+    if "_urandom" in vars(random):
+        t.append((random, "_urandom", stream))
+    t += [(m, n, stream) for m, n in names_where("urandom", lambda n, v: v is _REAL_URANDOM)]
+    return t
+
+
+def seam_getpass(fn):
+    """getpass.getpass itself and every name bound to it (from getpass import getpass)"""
+    import getpass as G
+    real = {id(getattr(G, a)) for a in ("getpass", "unix_getpass", "fallback_getpass", "win_getpass")
+            if hasattr(G, a)}
+    t = [(G, "getpass", fn)]
+    t += [(m, n, fn) for m, n in names_where(
+        "getpass", lambda n, v: callable(v) and (id(v) in real or
+                                                 getattr(v, "__module__", None) == "getpass"))]
+    return t
+
+
+def seam_dongle(get_dongle):
+    """ledgerblue.comm.getDongle / commTCP.getDongle and every name bound to one of them"""
+    import ledgerblue.comm as LC
+    import ledgerblue.commTCP as LCT
+    t = [(LC, "getDongle", get_dongle), (LCT, "getDongle", get_dongle)]
+    t += [(m, n, get_dongle) for m, n in names_where(
+        "getDongle", lambda n, v: callable(v) and getattr(v, "__name__", "") in
+        ("getDongle", "_global_get_dongle") and not isinstance(v, type))]
+    try:
+        import hid
+
+        class _Hid:
+            def __getattr__(self, name):
+                return (lambda *a, **k: 0) if name == "hidapi_exit" else getattr(hid, name)
+        t += [(m, n, _Hid()) for m, n in names_where("hid", lambda n, v: v is hid)]
+    except Exception:   # noqa
+        pass
+    return t
+
+
+def seam_stdout_names(buf):
+    """names a middleware module bound to the real stdout (from sys import stdout)"""
+    return [(m, n, buf) for m, n in names_where("stdout", lambda n, v: v is _REAL_STDOUT)]
+
+
 def run_main(main, argv, stdin=None, patches=()):
     """Call a tool's main() with scripted argv/stdin, capture stdout/stderr and the exit code."""
     r = Result()
     r.code, r.exc, r.gone = None, None, False
     out, err = io.StringIO(), io.StringIO()
     stdin = stdin if stdin is not None else ScriptedStdin([])
-    with env.patched((sys, "argv", list(argv)), (sys, "stdin", stdin), *patches):
+    with env.patched((sys, "argv", list(argv)), (sys, "stdin", stdin), *patches,
+                     *seam_stdout_names(out)):
         with contextlib.redirect_stdout(out), contextlib.redirect_stderr(err):
             try:
                 main()
